@@ -30,7 +30,23 @@ FAILING = {
     "invalid-return-value": "from nada_dsl import *\n\ndef nada_main():\n    return 5\n",
     "output-of-non-nada": "from nada_dsl import *\n\ndef nada_main():\n    p = Party(name='P0')\n    return [Output(5, 'o', p)]\n",
     "key-error": "from nada_dsl import *\n\ndef nada_main():\n    return {}['x']\n",
+    # exceptions raised without arguments, with a non-string argument, with text that needs escaping
+    "branch-on-secret": ("from nada_dsl import *\n\ndef nada_main():\n    p = Party(name='P0')\n    a = SecretInteger(Input(name='a', party=p))\n"
+                         "    b = SecretInteger(Input(name='b', party=p))\n    if a > b:\n        return [Output(a, 'o', p)]\n    return [Output(b, 'o', p)]\n"),
+    "bare-assert": "from nada_dsl import *\n\ndef nada_main():\n    assert 1 == 2\n    return []\n",
+    "raise-without-arguments": "from nada_dsl import *\n\ndef nada_main():\n    raise ValueError\n",
+    "raise-with-tuple-argument": "from nada_dsl import *\n\ndef nada_main():\n    raise RuntimeError(('a', 1), {'k': 2})\n",
+    "raise-with-quotes-and-newline": "from nada_dsl import *\n\ndef nada_main():\n    raise ValueError('line \"one\"\\nline two \\u2713')\n",
+    "system-exit-zero": "from nada_dsl import *\nimport sys\n\ndef nada_main():\n    raise ZeroDivisionError()\n",
 }
+# functions built inside a function body, inner and outer with the same __name__ (timers are named after things)
+NESTED_SAME_NAME = ("from typing import List\nfrom nada_dsl import *\n\n\ndef nada_main():\n    p = Party(name='P0')\n"
+                    "    rows = Array(Array(SecretInteger(Input(name='m', party=p)), size=2), size=3)\n"
+                    "    zero = SecretInteger(Input(name='z', party=p))\n\n"
+                    "    def fn(row: Array[SecretInteger]) -> SecretInteger:\n"
+                    "        def fn(acc: SecretInteger, x: SecretInteger) -> SecretInteger:\n            return acc + x\n"
+                    "        return row.reduce(fn, zero)\n    out = rows.map(fn)\n"
+                    "    outs: List[Output] = [Output(out, 'o', p)]\n    return outs\n")
 NAMES = ["prog.py", "my-prog.py", "my.prog.py", "json.py", "os.py", "typing.py", "nada_dsl.py", "base64.py", "temp_program.py",
          "traceback.py", "nada_dsl_prog.py", "inspect.py"]
 
@@ -72,6 +88,7 @@ def run(ctx):
              for k, v in texts.items()}
     texts.update(FAILING)
     texts["multi-file"] = MULTI
+    texts["nested-functions-same-name"] = NESTED_SAME_NAME
     seeds = ["0", "1", "12345"] if quick else ["0", "1", "2", "12345", "random"]
     names = NAMES[:7] if quick else NAMES
     seeds = seeds + (["7", "99"] if quick else ["7", "99", "31337"])
